@@ -84,15 +84,18 @@ def run(tier, seed):
              L.scenario("Barley", "ClayLoam", seed=seed + 56, seasons=2, irr={"method": 3, "schedule": [["2001/05/01", 30], ["2001/06/10", 40], ["2002/05/05", 25], ["2002/06/20", 35]]}),
              L.scenario("WheatGDD", "Loam", seed=seed + 51, seasons=2, off_season=True, regime="warm"),
              L.scenario("Tomato", "Clay", seed=seed + 52, seasons=2, irr={"method": 4}, gw={"water_table": "Y", "dates": ["2001/04/20"], "values": [1.5]})]
+    # fallow management different from the season's, fallow days simulated after a call boundary
+    longs.insert(3, L.scenario("Barley", "ClayLoam", seed=seed + 58, seasons=2, off_season=True, lead=20, field={"mulches": True, "mulch_pct": 30, "f_mulch": 0.4},
+                               fallow={"mulches": True, "mulch_pct": 90, "f_mulch": 0.9, "sr_inhb": True}, events=L.storm_events(2001, (1, 20), (60, 40, 80))))
     # a weather table whose columns are not in the canonical order (what a resumed call reads must be what the first call read)
     longs.insert(3, dict(L.scenario("Maize", "Loam", seed=seed + 57, seasons=2, irr={"method": 1, "kw": {"SMT": [50] * 4}}), _wx={"perm": [1, 0, 3, 2, 4], "extra_cols": [["Station", 0, "str"]], "index": "shifted"}))
     # ... and a share of the pairwise covering array over the configuration dimensions
     longs += L.pairwise_cases(seed, part=seed % 43, parts=43) if tier != "thorough" else L.pairwise_cases(seed, part=seed % 4, parts=4)
     nl = 40 if tier == "thorough" else 3
     for k, sc in enumerate(longs):
-        if k >= 8:
+        if k >= 9:
             nl = 6 if tier == "thorough" else 2          # covering-array runs: fewer slicings each
-        if (tier != "thorough") and k in (6, 7):
+        if (tier != "thorough") and k in (7, 8):
             continue                                     # (the thorough tier's extra hand-made runs)
         base = len(jobs)
         jobs.append({"kind": "plain", "scenario": sc})
